@@ -56,7 +56,10 @@ ExactCorrV(c, corr) ==
            IF AbsI(corr["max_score"] - RatQ(MaxOfSet(SeqRange(nums)), den, 6)) > ExactTol THEN "CorrMax"
            ELSE IF AbsI(corr["min_score"] - RatQ(MinOfSet(SeqRange(nums)), den, 6)) > ExactTol THEN "CorrMin"
            ELSE IF AbsI(corr["avg_score"] - RatQ(SumSeq(nums), den * c.M, 6)) > ExactTol THEN "CorrAvg"
-           ELSE IF \E m \in Methods \ {"stacked"} : (c.a = c.b) # (corr[m] <= ZeroTol) THEN "CorrZeroIff"
+           \* zero exactly when the column sets of the modes that the method looks at coincide up to permutation / scaling
+           ELSE IF (corr["max_score"] <= ZeroTol) # (\A m \in 1..c.M : CoverBoth(c.A[m], c.B[m])) THEN "CorrZeroIff"
+           ELSE IF (corr["avg_score"] <= ZeroTol) # (\A m \in 1..c.M : CoverBoth(c.A[m], c.B[m])) THEN "CorrZeroIff"
+           ELSE IF (corr["min_score"] <= ZeroTol) # (\E m \in 1..c.M : CoverBoth(c.A[m], c.B[m])) THEN "CorrZeroIff"
            ELSE "ok")
 
 \* cp_permute_factors(ref = (1, A), t): t is (w, B) ["B"] or a copy of the reference ["A"]
